@@ -76,6 +76,7 @@ func (r *request) executeInternal(next bool) {
 				break
 			} else {
 				r.client.proxy.logger.Debug("failed to send request to host", zap.Stringer("host", r.host), zap.Error(err))
+				next = true // This host can't take the request; move on instead of retrying it forever
 			}
 		}
 	}
